@@ -346,7 +346,14 @@ def rule_clamp(ctx) -> None:
     inner = ctx.func("clematis.engine.stages.t1:t1_propagate._t1_one_graph")
     whiles = [x for x in walk_no_defs(inner.node) if isinstance(x, ast.While)]
     wt = " ".join(src(w.test) for w in whiles)
-    ctx.check("pops < effective_queue_budget" in wt, "C17.CLAMP", f"{inner.qual}/pop-guard", inner.loc(), "the work loop is bounded by pops < effective_queue_budget",
+    # role: the pop counter = the local the work loop increments by one per iteration (no spelling of it is assumed)
+    pop_ok = False
+    for w in whiles:
+        incs = {x.target.id for x in ast.walk(w) if isinstance(x, ast.AugAssign) and isinstance(x.op, ast.Add) and isinstance(x.target, ast.Name) and isinstance(x.value, ast.Constant) and x.value.value == 1}
+        for c in ast.walk(w.test):
+            if isinstance(c, ast.Compare) and len(c.ops) == 1 and isinstance(c.ops[0], ast.Lt) and isinstance(c.left, ast.Name) and c.left.id in incs and src(c.comparators[0]) == "effective_queue_budget":
+                pop_ok = True
+    ctx.check(pop_ok, "C17.CLAMP", f"{inner.qual}/pop-guard", inner.loc(), "the work loop is bounded by pops < effective_queue_budget",
               f"work-loop guard is `{wt[:80]}`: the (slice-clamped) pop budget does not bound the loop")
     layer_cmp = [x for x in walk_no_defs(inner.node) if isinstance(x, ast.Compare) and "effective_iter_cap_layers" in src(x) and isinstance(x.ops[0], ast.Gt)]
     ctx.check(len(layer_cmp) >= 2, "C17.CLAMP", f"{inner.qual}/layer-guard", inner.loc(), f"{len(layer_cmp)} layer tests use the slice-clamped layer cap",
